@@ -11,7 +11,7 @@ PROP = 'C09'
 MODEL_OPS = 'Keep.nkeep, TableProofs.prep_table_m, FTable.filter_table_m, TableProofs.ranges_m'
 RULE = ('parameter files with 2-8 rows in a random row order (names of equal or different length), 1-4 numeric columns incl. NaN cells, optional additional-parameter '
         'dictionaries; 1-3 sources with 1..all models ranked, any selector (0..all kept); results passed as file / single object / list; the three writers and '
-        'FitInfo.filter_table; text outputs parsed back and compared by (source, fit rank) to the printed precision. non-trivial = >=2 fits kept and the parameter '
+        'FitInfo.filter_table, plus plot_params_1d / plot_params_2d observed through the SEDFITTER_VERIF hook (the table handed to the plot); text outputs parsed back and compared by (source, fit rank) to the printed precision. non-trivial = >=2 fits kept and the parameter '
         'file is not in name order.')
 EXHAUSTIVE = {'quick': False, 'thorough': False}
 ASSUMPTIONS = ['model names are distinct; printed values are compared to the 4 significant digits the writers print',
@@ -37,7 +37,10 @@ def generate(tier, seed):
         additional = None
         if rng.random() < 0.4:
             additional = {'extra%d' % i: {n: rng.dyadic(-5, 5, 10) for n in names} for i in range(rng.randint(1, 2))}
-        writer = rng.choice(['params', 'ranges', 'extract', 'filter_table'])
+        writer = rng.choice(['params', 'ranges', 'extract', 'filter_table', 'plot1d', 'plot2d'])
+        if writer.startswith('plot'):      # the histograms need finite values
+            for c in cols:
+                cols[c] = [v if not math.isnan(v) else 2.5 for v in cols[c]]
         form = rng.choice(['file', 'object', 'list'])
         nsrc = 1 if form == 'object' else rng.randint(1, 3)
         sources = []
@@ -49,7 +52,7 @@ def generate(tier, seed):
             sources.append(dict(name='src%d' % s, nd=nd, fits=[dict(name=n, chi2=c, av=rng.dyadic(0, 20, 8), sc=rng.dyadic(-2, 2, 8)) for n, c in zip(chosen, chi)]))
         selform = rng.choice('ANNCDEF')
         sel = [selform, float(rng.randint(0, nm + 1)) if selform == 'N' else rng.dyadic(0, 30, 8) + 2.0 ** -12]
-        cases.append(dict(writer=writer, form=form, sel=sel, table=dict(names=names, cols=cols), additional=additional if writer in ('params', 'ranges', 'filter_table') else None,
+        cases.append(dict(writer=writer, form=form, sel=sel, table=dict(names=names, cols=cols), additional=additional if writer in ('params', 'ranges', 'filter_table', 'plot1d') else None,
                           sources=sources))
     return cases
 
@@ -123,6 +126,27 @@ def impl(case):
                 lines = [l.split() for l in open(os.path.join(d, 'ex_' + s['name'] + '.txt')).read().split('\n') if l.strip()]
                 out['header'] = lines[0]
                 out['sources'].append(dict(name=s['name'], n_fits=len(lines) - 1, rows=[dict(vals=r) for r in lines[1:]]))
+        elif case['writer'] in ('plot1d', 'plot2d'):
+            import matplotlib
+            matplotlib.use('Agg')
+            os.environ['SEDFITTER_VERIF'] = '1'          # observation hook (MANIFEST.hooks): the table handed to the plot is recorded
+            from sedfitter.utils import verif_hook
+            from sedfitter import plot_params_1d, plot_params_2d
+            del verif_hook.RECORDS[:]
+            pars = list(case['table']['cols'])
+            if case['writer'] == 'plot1d':
+                plot_params_1d(arg, pars[0], output_dir=os.path.join(d, 'plots'), select_format=sel, additional=add, bins=5)
+            else:
+                plot_params_2d(arg, pars[0], pars[-1], output_dir=os.path.join(d, 'plots'), select_format=sel)
+            recs = list(verif_hook.RECORDS)
+            del verif_hook.RECORDS[:]
+            os.environ.pop('SEDFITTER_VERIF', None)
+            for where, r in recs:
+                ts = r['table']
+                cols = [c for c in ts.columns if c != 'MODEL_NAME']
+                out['header'] = cols
+                out['sources'].append(dict(name=r['source'], n_fits=len(ts),
+                                           rows=[dict(model=str(ts['MODEL_NAME'][i]).strip(), vals=[float(ts[c][i]) for c in cols]) for i in range(len(ts))]))
         else:
             tt = Table.read(os.path.join(d, 'parameters.fits'), character_as_bytes=False)
             tt['MODEL_NAME'] = np.char.strip(tt['MODEL_NAME'])
@@ -225,14 +249,14 @@ def judge(case, im, mo):
             continue
         if 'n_data' in o and o['n_data'] != s['nd']:
             fail.append('counts: n_data of %s is %d, the source has %d fitted points' % (s['name'], o['n_data'], s['nd']))
-        if case['writer'] in ('params', 'filter_table', 'extract'):
+        if case['writer'] in ('params', 'filter_table', 'extract', 'plot1d', 'plot2d'):
             for i, (r, x, w) in enumerate(zip(o['rows'], kept, want_rows)):
                 if case['writer'] == 'params':
                     if r['fit_id'] != i + 1 or r['model'] != x['name']:
                         fail.append('rows: row %d of %s is fit %d / model %s, expected fit %d / %s' % (i, s['name'], r['fit_id'], r['model'], i + 1, x['name']))
                         break
                     got, want = r['vals'], [x['chi2'], x['av'], x['sc']] + w
-                elif case['writer'] == 'filter_table':
+                elif case['writer'] in ('filter_table', 'plot1d', 'plot2d'):
                     if r['model'] != x['name']:
                         fail.append('rows: row %d of the filtered table is %s, fit %d is %s' % (i, r['model'], i + 1, x['name']))
                         break
